@@ -44,181 +44,168 @@ def expr_class(e):
     return "+".join(sorted(set(kinds))) or "empty"
 
 
+_W = {}
+
+
+def init(opts):
+    _W["opts"] = opts
+    _W["nixio"] = nixio = core.import_nixio()
+    d = os.path.join(opts["rundir"], "i%d" % os.getpid())
+    os.makedirs(d, exist_ok=True)
+    _W["nf"] = nixio.File.open(os.path.join(d, "idx.nix"), nixio.FileMode.Overwrite)
+    _W["blk"] = _W["nf"].create_block("b", "t")
+    _W["arrays"] = {}
+    _W["k"] = 0
+
+
+def arrays_for(shape):
+    key = tuple(shape)
+    arrays = _W["arrays"]
+    if key not in arrays:
+        blk = _W["blk"]
+        ref = np.arange(int(np.prod(key)), dtype=np.int64).reshape(key) + 100
+        nm = "r%d" % len(arrays)
+        arrays[key] = (ref, blk.create_data_array(nm, "t", data=ref), blk.create_data_array(nm + "w", "t", data=ref))
+    return arrays[key]
+
+
+def replay_one(vec):
+    """One (shape, window, expression) vector: specification vs NumPy vs nixio (read, and a seeded share of assignments)."""
+    _W["k"] += 1
+    k = _W["k"]
+    seed = _W["opts"]["seed"]
+    res = {"findings": [], "read": 0, "assign": 0, "error_vectors": 0, "invalid_views": 0, "view": 0, "array": 0}
+
+    def violation(key, detail):
+        res["findings"].append({"key": key, "detail": detail, "replay": vec})
+
+    cfg, e, r = vec["cfg"], vec["q"]["e"], vec["r"]
+    shape = tuple(cfg["shape"])
+    ref, da, daw = arrays_for(shape)
+    ex = pyexpr(e)
+    if len(ex) == 1 and k % 2:
+        ex = ex[0]
+    ecls = "%s/rank%d/%s" % ("view" if cfg["view"] else "array", len(shape), expr_class(e))
+    target, base, starts = da, ref, None
+    if cfg["view"]:
+        res["view"] += 1
+        starts = tuple(w["s"] for w in cfg["win"])
+        exts = tuple(w["e"] for w in cfg["win"])
+        valid = all(s + x <= n for s, x, n in zip(starts, exts, shape))
+        try:
+            dv = da.get_slice(starts, exts)
+        except IndexError:
+            dv = None
+        if not valid:
+            res["invalid_views"] += 1
+            if dv is not None:
+                try:
+                    got = dv[ex]
+                    if dv.valid or np.size(got) != 0:
+                        violation("view/outside_not_refused/rank%d" % len(shape),
+                                  {"shape": shape, "start": starts, "extent": exts, "valid": dv.valid, "read": repr(got)[:100]})
+                except IndexError:
+                    pass
+                except Exception:  # noqa
+                    pass
+            return res
+        if dv is None or not dv.valid:
+            violation("view/inside_refused/rank%d" % len(shape), {"shape": shape, "start": starts, "extent": exts})
+            return res
+        target = dv
+        base = ref[tuple(slice(s, s + x) for s, x in zip(starts, exts))]
+    else:
+        res["array"] += 1
+    # the property's own oracle
+    try:
+        want = base[ex]
+        np_ok = True
+    except IndexError:
+        want, np_ok = None, False
+    if np_ok != r["ok"]:
+        raise core.MachineryError("specification and NumPy disagree on %r %r: spec ok=%s" % (cfg, ex, r["ok"]))
+    if np_ok:
+        idxs = [d["idx"] for d in r["dims"]]
+        sel = ref[np.ix_(*idxs)]
+        keep = tuple(0 if d["drop"] else slice(None) for d in r["dims"])
+        sel = sel[keep]
+        if sel.shape != np.shape(want) or not np.array_equal(sel, want):
+            raise core.MachineryError("specification selection differs from NumPy for %r %r" % (cfg, ex))
+    res["read"] += 1
+    try:
+        got = target[ex]
+        got_ok = True
+    except IndexError:
+        got_ok = False
+    except Exception as exc:  # noqa
+        violation("%s/read_raises_%s" % (ecls, type(exc).__name__), {"config": cfg, "expr": repr(ex), "exc": repr(exc)[:200]})
+        return res
+    if not np_ok:
+        res["error_vectors"] += 1
+        if got_ok and np.size(got) != 0:
+            violation("%s/out_of_range_yields_data" % ecls, {"config": cfg, "expr": repr(ex), "observed": repr(got)[:120]})
+        return res
+    if not got_ok:
+        violation("%s/valid_index_refused" % ecls, {"config": cfg, "expr": repr(ex)})
+        return res
+    want_arr = np.asarray(want)
+    if want_arr.shape == ():
+        want_arr = want_arr.reshape((1,))
+    got_arr = np.asarray(got)
+    if got_arr.shape != want_arr.shape or not np.array_equal(got_arr, want_arr):
+        violation("%s/read_differs" % ecls, {"config": cfg, "expr": repr(ex), "expected": repr(want_arr)[:160],
+                                             "observed": repr(got_arr)[:160]})
+        return res
+    if (k + seed) % 4 == 0:
+        res["assign"] += 1
+        mirror = ref.copy()
+        mview = mirror if starts is None else mirror[tuple(slice(s, s + x) for s, x in zip(starts, exts))]
+        block = -(np.arange(want_arr.size, dtype=np.int64).reshape(np.shape(want)) + 1)
+        mview[ex] = block
+        wtarget = daw if starts is None else daw.get_slice(starts, exts)
+        try:
+            wtarget[ex] = block
+        except Exception as exc:  # noqa
+            if want_arr.size:
+                violation("%s/assign_raises_%s" % (ecls, type(exc).__name__), {"config": cfg, "expr": repr(ex), "exc": repr(exc)[:200]})
+            daw[...] = ref
+            return res
+        after = daw[:]
+        if not np.array_equal(after, mirror):
+            violation("%s/assign_differs" % ecls, {"config": cfg, "expr": repr(ex), "expected": repr(mirror)[:160],
+                                                   "observed": repr(after)[:160]})
+        if want_arr.size:
+            daw[...] = ref
+    return res
+
+
 def run(tier, seed, verdict):
-    nixio = core.import_nixio()
+    from . import runner
     quick = tier != "thorough"
     cfgs = (["MC_C06_r1_quick.cfg", "MC_C06_r2_quick.cfg", "MC_C06_r3_quick.cfg", "MC_C06_r4_quick.cfg"] if quick
             else ["MC_C06_r1.cfg", "MC_C06_r2.cfg", "MC_C06_r3_quick.cfg", "MC_C06_r4_quick.cfg"])
     strides = {"MC_C06_r2_quick.cfg": 3 if quick else 1, "MC_C06_r2.cfg": 7, "MC_C06_r1.cfg": 2}
-    q = queue.Queue(maxsize=20000)
-    results = {}
+    runs = [runner.ExportRun("MC_NixIndex", c, seed, "harness.c06", stride=strides.get(c, 1), batch=400, heap="3g",
+                             label=lambda v: "%s/rank%d" % ("view" if v["cfg"]["view"] else "array", len(v["cfg"]["shape"])))
+            for c in cfgs]
     counts = {"read": 0, "assign": 0, "error_vectors": 0, "invalid_views": 0, "view": 0, "array": 0}
-    nontrivial = set()
+    results = {}
     samples = []
-
-    with core.Scratch("c06") as tmp:
-        def producer(cfg):
-            n = {"i": 0}
-            stride = strides.get(cfg, 1)
-
-            def cb(tx):
-                if isinstance(tx, tuple) and tx and tx[0] == "TX":
-                    n["i"] += 1
-                    if stride > 1 and (n["i"] + seed) % stride:
-                        return
-                    q.put(tx[1])
-            try:
-                results[cfg] = core.run_tlc("MC_NixIndex", cfg, tmp, workers=1, export_cb=cb, timeout=3000,
-                                            coverage=False, heap="3g")
-            except Exception as exc:  # noqa
-                results[cfg] = exc
-            q.put(("done", cfg))
-
-        threads = [threading.Thread(target=producer, args=(c,), daemon=True) for c in cfgs]
-        for t in threads:
-            t.start()
-
-        nf = nixio.File.open(os.path.join(tmp, "idx.nix"), nixio.FileMode.Overwrite)
-        blk = nf.create_block("b", "t")
-        arrays = {}
-
-        def arrays_for(shape):
-            key = tuple(shape)
-            if key not in arrays:
-                ref = np.arange(int(np.prod(key)), dtype=np.int64).reshape(key) + 100
-                nm = "r%d" % len(arrays)
-                arrays[key] = (ref, blk.create_data_array(nm, "t", data=ref),
-                               blk.create_data_array(nm + "w", "t", data=ref))
-            return arrays[key]
-
-        def judge(vec, k):
-            cfg, e, r = vec["cfg"], vec["q"]["e"], vec["r"]
-            shape = tuple(cfg["shape"])
-            ref, da, daw = arrays_for(shape)
-            ex = pyexpr(e)
-            if len(ex) == 1 and k % 2:
-                ex = ex[0]
-            if len(samples) < 8 and k % 9973 == 1:
-                samples.append(vec)
-            nontrivial.add((shape, cfg["view"], repr(cfg["win"]), repr(ex)))
-            ecls = "%s/rank%d/%s" % ("view" if cfg["view"] else "array", len(shape), expr_class(e))
-            target, base, starts = da, ref, None
-            if cfg["view"]:
-                counts["view"] += 1
-                starts = tuple(w["s"] for w in cfg["win"])
-                exts = tuple(w["e"] for w in cfg["win"])
-                valid = all(s + x <= n for s, x, n in zip(starts, exts, shape))
-                try:
-                    dv = da.get_slice(starts, exts)
-                except IndexError:
-                    dv = None
-                if not valid:
-                    counts["invalid_views"] += 1
-                    if dv is not None:
-                        try:
-                            got = dv[ex]
-                            if dv.valid or np.size(got) != 0:
-                                verdict.violation("view/outside_not_refused/rank%d" % len(shape),
-                                                  {"shape": shape, "start": starts, "extent": exts, "valid": dv.valid,
-                                                   "read": repr(got)[:100]}, vec)
-                        except IndexError:
-                            pass
-                        except Exception as exc:  # noqa
-                            verdict.note("read of an invalid view raised %s" % type(exc).__name__, cls="invalidview/exc")
-                    return
-                if dv is None or not dv.valid:
-                    verdict.violation("view/inside_refused/rank%d" % len(shape),
-                                      {"shape": shape, "start": starts, "extent": exts}, vec)
-                    return
-                target = dv
-                base = ref[tuple(slice(s, s + x) for s, x in zip(starts, exts))]
-            else:
-                counts["array"] += 1
-            # the property's own oracle
-            try:
-                want = base[ex]
-                np_ok = True
-            except IndexError:
-                want, np_ok = None, False
-            if np_ok != r["ok"]:
-                raise core.MachineryError("specification and NumPy disagree on %r %r: spec ok=%s" % (cfg, ex, r["ok"]))
-            if np_ok:
-                idxs = [d["idx"] for d in r["dims"]]
-                sel = ref[np.ix_(*idxs)] if all(len(i) for i in idxs) else ref[np.ix_(*idxs)]
-                keep = tuple(0 if d["drop"] else slice(None) for d in r["dims"])
-                sel = sel[keep]
-                if sel.shape != np.shape(want) or not np.array_equal(sel, want):
-                    raise core.MachineryError("specification selection differs from NumPy for %r %r" % (cfg, ex))
-            # the implementation: read
-            counts["read"] += 1
-            try:
-                got = target[ex]
-                got_ok = True
-            except IndexError:
-                got_ok = False
-            except Exception as exc:  # noqa
-                verdict.violation("%s/read_raises_%s" % (ecls, type(exc).__name__),
-                                  {"config": cfg, "expr": repr(ex), "exc": repr(exc)[:200]}, vec)
-                return
-            if not np_ok:
-                counts["error_vectors"] += 1
-                if got_ok and np.size(got) != 0:
-                    verdict.violation("%s/out_of_range_yields_data" % ecls,
-                                      {"config": cfg, "expr": repr(ex), "observed": repr(got)[:120]}, vec)
-                return
-            if not got_ok:
-                verdict.violation("%s/valid_index_refused" % ecls, {"config": cfg, "expr": repr(ex)}, vec)
-                return
-            want_arr = np.asarray(want)
-            if want_arr.shape == ():
-                want_arr = want_arr.reshape((1,))
-            got_arr = np.asarray(got)
-            if got_arr.shape != want_arr.shape or not np.array_equal(got_arr, want_arr):
-                verdict.violation("%s/read_differs" % ecls,
-                                  {"config": cfg, "expr": repr(ex), "expected": repr(want_arr)[:160],
-                                   "observed": repr(got_arr)[:160]}, vec)
-                return
-            # assignment (seeded share)
-            if (k + seed) % 4 == 0:
-                counts["assign"] += 1
-                mirror = ref.copy()
-                mview = mirror if starts is None else mirror[tuple(slice(s, s + x) for s, x in zip(starts, exts))]
-                block = -(np.arange(want_arr.size, dtype=np.int64).reshape(np.shape(want)) + 1)
-                mview[ex] = block
-                wtarget = daw if starts is None else daw.get_slice(starts, exts)
-                try:
-                    wtarget[ex] = block
-                except Exception as exc:  # noqa
-                    if want_arr.size:
-                        verdict.violation("%s/assign_raises_%s" % (ecls, type(exc).__name__),
-                                          {"config": cfg, "expr": repr(ex), "exc": repr(exc)[:200]}, vec)
-                    daw[...] = ref
-                    return
-                after = daw[:]
-                if not np.array_equal(after, mirror):
-                    verdict.violation("%s/assign_differs" % ecls,
-                                      {"config": cfg, "expr": repr(ex), "expected": repr(mirror)[:160],
-                                       "observed": repr(after)[:160]}, vec)
-                if want_arr.size:
-                    daw[...] = ref
-
-        done = 0
-        k = 0
-        while done < len(cfgs):
-            item = q.get()
-            if isinstance(item, tuple) and item[0] == "done":
-                done += 1
-                continue
-            k += 1
-            judge(item, k)
-        nf.close()
-
+    k = 0
+    for r_ in runs:
+        r_.run()
+        results[r_.cfg] = r_.res
+        for f in r_.findings:
+            verdict.violation(f["key"], f["detail"], f["replay"])
+        for kk in counts:
+            counts[kk] += int(r_.counters.get(kk, 0))
+        k += r_.stats["replayed"]
+        samples.extend(r_.samples[:2])
+    nontrivial_n = counts["read"] + counts["invalid_views"]
     states = exports = 0
     cmds = []
     for cfg in cfgs:
         res = results[cfg]
-        if isinstance(res, Exception):
-            raise core.MachineryError("TLC run %s failed: %r" % (cfg, res))
         if res.violation is not None:
             verdict.violation("tlc/law_violated/" + cfg, {"tlc": res.violation, "trace": res.error_trace[:40]})
         elif res.rc != 0:
@@ -244,11 +231,12 @@ def run(tier, seed, verdict):
     coverage = {
         "states": states, "transitions": exports, "traces_validated_against_impl": counts["read"],
         "samples": samples, "exhaustive": all(s == 1 for s in strides.values()),
-        "evaluations": k, "distinct_nontrivial": len(nontrivial),
+        "evaluations": k, "distinct_nontrivial": nontrivial_n,
         "rule": "TLC enumerates shapes (rank 1-4, zero-length axes included) x view windows (inside, touching the end, "
                 "outside) x every expression built from the component pools (ints incl. negative and out of range, "
                 "slices with start/stop beyond the extent on both sides, None components, steps, one ellipsis at any "
-                "position, too many indices); distinct = distinct (shape, window, expression)",
+                "position, too many indices); every TLC vector is a distinct (shape, window, expression); non-trivial = vectors that "
+                "reached a read or an invalid-window judgement",
         "counts": counts, "strides": strides, "configs": cfgs,
         "tlc_laws": ["InSpace", "InWindow", "ErrorOnlyFromInts", "WholeWindow", "Composition"],
         "checker_cmd": " ;; ".join(cmds),
@@ -260,3 +248,28 @@ def run(tier, seed, verdict):
                    "element type int64; value fidelity per element type is C01's business",
                    "the specification's selection is cross-checked against NumPy on every vector (disagreement = machinery failure)"]
     return "model_checking", coverage, assumptions
+
+
+def replay(path):
+    import json
+    with open(path) as fh:
+        rec = json.load(fh)
+    vec = rec["replay"]
+    if not (isinstance(vec, dict) and "cfg" in vec):
+        print("this replay file belongs to the stateful part (NixArray history): re-run ./check C06 to reproduce")
+        return 2
+    with core.Scratch("c06r") as tmp:
+        init({"seed": rec.get("seed", 0), "rundir": tmp})
+        hit = False
+        for k in range(4):           # the assignment share and the scalar / tuple form depend on a counter
+            res = replay_one(vec)
+            for f in res["findings"]:
+                print("MISMATCH key=%s\n  %s" % (f["key"], json.dumps(f["detail"], default=repr)[:700]))
+                hit = hit or f["key"] == rec["key"]
+            if hit:
+                break
+        _W["nf"].close()
+    print("recorded key %s: %s" % (rec["key"], "REPRODUCED" if hit else "not reproduced"))
+    if hit:
+        print("VIOLATION property=C06 replay=%s" % path)
+    return 1 if hit else 0
